@@ -42,7 +42,7 @@ PROPS = {
                 rule="real coin toss + fashare + beaver_aand among n parties through wrappers; MAC relation for every ordered pair and index, AND relation for every triple, identical shared coins; distinct by (n, shares, triples)"),
     "C11": dict(modules=["PolytuneModel.Thm.C11", "PolytuneModel.Thm.C11kos"], theorems=["PolytuneModel.Kos.C11_kos_check_honest_spec", "PolytuneModel.Kos.M_comm", "PolytuneModel.Kos.clmulNat_eq_M", "PolytuneModel.OT.C11_cot", "PolytuneModel.OT.column_relation", "PolytuneModel.OT.C11_draws_agree", "PolytuneModel.OT.C11_in_step"], drive="C11", cases=dict(quick=20, thorough=1),
                 rule="two back-to-back KOS sessions (both role orders) per length incl. 8k+-1, 128k+-1; all-0 / all-1 / random choices; distinct by (length, choices, order)"),
-    "C12": dict(modules=["PolytuneModel.Thm.C12generic", "PolytuneModel.Thm.C12rounds", "PolytuneModel.Thm.C12phases", "PolytuneModel.Thm.C12", "PolytuneModel.Thm.C12det", "PolytuneModel.Thm.C12phasesDet"], theorems=["PolytuneModel.phasedOf_ok", "PolytuneModel.C12_polytune_sequential", "PolytuneModel.Sched.demo_ok", "PolytuneModel.Sched.C12_run_canonical", "PolytuneModel.Sched.C12_phased_schedule_independent", "PolytuneModel.C12_polytune", "PolytuneModel.C12_same_object", "PolytuneModel.Sched.min_undone_send_enabled", "PolytuneModel.Sched.min_undone_recv_enabled", "PolytuneModel.Sched.rank_increases", "PolytuneModel.Sched.C12_no_deadlock", "PolytuneModel.Sched.C12_phased_no_deadlock", "PolytuneModel.Sched.C12_cex_recv_before_send"], drive="C01", also=["C12o"], cases=dict(quick=60, thorough=600),
+    "C12": dict(server="C12", server_cases=dict(quick=4, thorough=22), modules=["PolytuneModel.Thm.C12buffer", "PolytuneModel.Thm.C12generic", "PolytuneModel.Thm.C12rounds", "PolytuneModel.Thm.C12phases", "PolytuneModel.Thm.C12", "PolytuneModel.Thm.C12det", "PolytuneModel.Thm.C12phasesDet"], theorems=["PolytuneModel.C12_stream_fits_peer_buffer", "PolytuneModel.garbled_chunks_le_nine", "PolytuneModel.C12_stream_tight", "PolytuneModel.phasedOf_ok", "PolytuneModel.C12_polytune_sequential", "PolytuneModel.Sched.demo_ok", "PolytuneModel.Sched.C12_run_canonical", "PolytuneModel.Sched.C12_phased_schedule_independent", "PolytuneModel.C12_polytune", "PolytuneModel.C12_same_object", "PolytuneModel.Sched.min_undone_send_enabled", "PolytuneModel.Sched.min_undone_recv_enabled", "PolytuneModel.Sched.rank_increases", "PolytuneModel.Sched.C12_no_deadlock", "PolytuneModel.Sched.C12_phased_no_deadlock", "PolytuneModel.Sched.C12_cex_recv_before_send"], drive="C01", also=["C12o"], cases=dict(quick=60, thorough=600),
                 rule="real mpc futures under round-robin / seeded random / starving schedules, capacities 1, 2, 1024; exact deadlock detection; at most one outstanding send and receive per peer; distinct by (circuit, p_eval, p_out) x schedule"),
     "C13": dict(modules=["PolytuneModel.Thm.C13", "PolytuneModel.Thm.C13all2", "PolytuneModel.Thm.C13reach"], thorough_modules=["PolytuneModel.Thm.C13term", "PolytuneModel.Thm.C13n3"], thorough_theorems=["PolytuneModel.Server.C13_n2_terminates", "PolytuneModel.Server.C13_n3_leader1", "PolytuneModel.Server.C13_n3_leader0_consts"], theorems=["PolytuneModel.Server.C13_n2_all_setups", "PolytuneModel.Server.C13_n2_reachable_ok", "PolytuneModel.Server.closed_covers", "PolytuneModel.Server.C13_n2_leader0", "PolytuneModel.Server.C13_n2_leader1_consts", "PolytuneModel.Server.C13_n2_both_consts_no_dest", "PolytuneModel.Server.C13_n2_complete", "PolytuneModel.Server.C13_n2_reaches_end"], server="C13", cases=dict(quick=24, thorough=200), rule="compatible policies, seeded delivery orders of validate/run/consts RPCs, leaders, destinations, constants; every observed actor step replayed through the Lean step function; distinct by delivery order"),
     "C14": dict(modules=["PolytuneModel.Thm.C14", "PolytuneModel.Thm.Sites"], theorems=["PolytuneModel.C14_reply_sites_present", "PolytuneModel.Server.C14_no_disturb", "PolytuneModel.Server.C14_msg_no_panic", "PolytuneModel.Server.C14_cex_msg_oob", "PolytuneModel.Server.C14_cex_dup_schedule", "PolytuneModel.Server.C14_cex_illtyped_dup"], server="C14", cases=dict(quick=40, thorough=300), rule="one stray / malformed command injected at a seeded point of a normal run; distinct by (command, point, n)"),
@@ -132,18 +132,23 @@ def main():
             else: rechecked.append(mod)
     # 4. harnesses against the current working tree
     results = []
-    hdir = ROOT / ("harness-server" if "server" in cfg else "harness")
-    shutil.copy(REPO / "Cargo.lock", hdir / "Cargo.lock")
-    rc2, out2, err2 = sh("cargo build --release --offline", cwd=hdir, timeout=3000, env={"CARGO_NET_OFFLINE": "true"})
+    runs = []   # (harness dir, command)
+    n = cfg["cases"][tier]; extra = " --thorough" if tier == "thorough" else ""
+    if "drive" in cfg: runs += [(ROOT / "harness", f"./target/release/drive {d} --cases {n}{extra}") for d in [cfg["drive"]] + cfg.get("also", [])]
+    if "server" in cfg:
+        ns = cfg.get("server_cases", cfg["cases"])[tier]
+        runs += [(ROOT / "harness-server", f"./target/release/ptsrvverif {sv} --cases {ns}") for sv in ([cfg["server"]] if isinstance(cfg["server"], str) else cfg["server"])]
+    built = {}
+    for hdir in dict.fromkeys(h for h, _ in runs):
+        shutil.copy(REPO / "Cargo.lock", hdir / "Cargo.lock")
+        rc2, out2, err2 = sh("cargo build --release --offline", cwd=hdir, timeout=3000, env={"CARGO_NET_OFFLINE": "true"}); built[hdir] = rc2 == 0
+        if rc2 != 0: broken.append({"kind": "harness-build", "what": f"{hdir.name} does not build against /repo", "log": err2[-1500:]})
     fcntl.flock(lock, fcntl.LOCK_UN)
-    if rc2 != 0: broken.append({"kind": "harness-build", "what": "harness does not build against /repo", "log": err2[-1500:]})
-    else:
-        n = cfg["cases"][tier]; extra = " --thorough" if tier == "thorough" else ""
-        cmds = [f"./target/release/ptsrvverif {sv} --cases {n}" for sv in ([cfg['server']] if isinstance(cfg['server'], str) else cfg['server'])] if "server" in cfg else [f"./target/release/drive {d} --cases {n}{extra}" for d in [cfg["drive"]] + cfg.get("also", [])]
-        for cmd in cmds:
-            rc3, out3, err3 = sh(cmd + f" --model {LEAN}/.lake/build/bin/ptmodel", cwd=hdir, timeout=7200, env={"VERIF_SEED": str(seed)})
-            try: results.append(json.loads(out3))
-            except Exception: broken.append({"kind": "harness-run", "what": f"`{cmd}` produced no JSON", "log": (out3 + err3)[-1500:]})
+    for hdir, cmd in runs:
+        if not built[hdir]: continue
+        rc3, out3, err3 = sh(cmd + f" --model {LEAN}/.lake/build/bin/ptmodel", cwd=hdir, timeout=7200, env={"VERIF_SEED": str(seed)})
+        try: results.append(json.loads(out3))
+        except Exception: broken.append({"kind": "harness-run", "what": f"`{cmd}` produced no JSON", "log": (out3 + err3)[-1500:]})
     result = {"executions": sum(r.get("executions", r.get("cases", 0)) for r in results), "distinct_nontrivial": sum(r.get("distinct_nontrivial", 0) for r in results),
               "samples": [x for r in results for x in r.get("samples", [])][:4], "distribution": {k: v for r in results for k, v in r.get("distribution", {}).items()},
               "model_disagreements": [x for r in results for x in r.get("model_disagreements", [])],
